@@ -3,6 +3,8 @@ import QV.Prelude
 import QV.Generated.Consts
 import QV.Generated.Tables
 import QV.Properties.C14
+import QV.Generated.Tsig
+import QV.Properties.C11
 import QV.Properties.C15
 import QV.Generated.Validation
 import QV.Properties.C06
@@ -12,3 +14,4 @@ import QV.Properties.C22
 import QV.Properties.C17
 import QV.Generated.ZoneFileDispatch
 import QV.Properties.C24
+import QV.Properties.C31
